@@ -107,6 +107,10 @@ let handle (toks : string list) : string =
   | ["bloomfilter"; b; a; t] -> sbool (bloom_filter h (bloom_of_hex b) (parse_addrs a) (parse_tops t))
   | "gen" :: size :: ops -> run_gen size ops
   | ["reset"] -> rev_chain := []; invalidate (); "ok"
+  (* keep the first n blocks (a reorg replaces the rest) *)
+  | ["truncate"; n] ->
+    let rec drop i l = if i <= 0 then l else (match l with [] -> [] | _ :: t -> drop (i - 1) t) in
+    rev_chain := drop (List.length !rev_chain - int_of_string n) !rev_chain; invalidate (); "ok"
   (* append a block: header bloom as stored, receipts; answers create_bloom of the receipts *)
   | ["block"; b; rs] ->
     let rcs = parse_receipts rs in
